@@ -9,27 +9,32 @@ once and then stops.
    always appears in the loop's error list; with no error nothing is skipped or repeated under any
    scheduling."
 
-Stated over the two transition systems of `Goat/Model/Loop.lean` (namespace `Goat.Loop`):
+Stated over the transition system of `Goat/Model/Loop.lean` (namespace `Goat.Loop`):
 
-  * producers: `producerSeqs c oracle root l k` = the action sequence of every producer goroutine
-    walking the tree `(l, k)` (root listing succeeds or not, children) under the `LoopData` fields
-    `c` (filters, which callbacks are set), where `oracle` decides for every accepted directory
-    whether `pool.Add(1)` granted a fresh producer; a run of the producers is any `Interleave`-ing
-    `acts` of these sequences;
-  * queues + consumers + closer: `sys P acts n`, whose schedules are arbitrary `List Label`
-    (producer action / producer gives up after a kill / closer action / action of consumer `i`),
-    `P` = channel capacities, which callbacks fail, and the order of the two reads of the consumer
-    (`fixedOrder = true` is the code after `fix: fsloop consumer reads the lifecycle step before
-    testing the queues`).
+  * `rootProg c oracle root l k` = the program of the first producer goroutine walking the tree
+    `(l, k)` (root listing succeeds or not, children) under the `LoopData` fields `c` (filters, which
+    callbacks are set), where `oracle` decides for every accepted directory whether `pool.Add(1)`
+    granted a fresh producer (whose program the `spawn` action carries); the kill tests of
+    `processList` are actions of the program;
+  * `sys P prog n`: the producers, the two bounded channels, `n` consumers, the closer, the
+    lifecycle (strict: `Error` = append, then kill) and the environment.  Schedules are arbitrary
+    `List Label`: action of producer `j` / of the closer / of consumer `i`, and the environment acts
+    `kill` (scope Kill event), `errEvent` (scope Error event), `timeout` (the lifecycle's deadline)
+    **at any position**.  `P` = channel capacities, which callbacks fail, and the order of the two
+    reads of the consumer (`fixedOrder = true` is the code after `fix: fsloop consumer reads the
+    lifecycle step before testing the queues`).
 
-Every theorem quantifies over all trees, filters, oracles, interleavings, numbers of consumers,
-capacities and schedules (lists of any length).
+Every theorem quantifies over all trees, filters, oracles, numbers of consumers, capacities and
+schedules (lists of any length, environment acts included).
 
-Vocabulary: `sends acts` / `lists acts` the channel sends / `ReadDir` calls among producer actions;
-`selected` / `listed` the specification of the walk (plain recursion over the tree);
-`waitEnabled s` = the consumer pool's wait-group counter is 0 (`Loop.Wait()` can return);
-`inflight cons` = callbacks being executed; `reporting cons` = failed callbacks whose
-`lifecycle.Error(err)` is the very next action of their consumer.
+Vocabulary: `sendsL prog` / `listsL prog` the channel sends / `ReadDir` calls of a program including
+the producers it starts; `selected` / `listed` the specification of the walk (plain recursion over
+the tree); `waitEnabled s` = the consumer pool's wait-group counter is 0 (`Loop.Wait()` can return);
+`errorsOf s` = what `Loop.Errors()` returns (the error list, then the context's error);
+`inflight cons` = callbacks being executed; `reporting cons` / `reportingP prods` = failed callbacks /
+listings whose `lifecycle.Error(err)` is the very next action of their goroutine; `s.lfailed` = the
+`ReadDir` calls that returned an error; `measure s` = a bound on the remaining actions of a killed
+loop; `BlockedSend P s pr` = producer `pr` is at a send whose channel is full.
 -/
 import Goat.Proofs.LoopOld
 
@@ -39,20 +44,18 @@ open Goat.LTS Goat.Loop
 
 /-! ### 1. Producers -/
 
-/-- Whatever the tree, the filters and the fresh-producer/inline decisions, and however the
-producers interleave: the items sent to the two channels are exactly the selected nodes, each once
-(equality of multisets). -/
-theorem producers_enqueue_once (c : WalkCfg) (oracle : Path → Bool) (root : Path) (l : Bool) (k : Kids)
-    (acts : List PAct) (h : Interleave (producerSeqs c oracle root l k) acts) :
-    (sends acts).Perm (selected c root l k) :=
-  (sends_perm (interleave_perm h)).trans (walkRoot_sends_perm c oracle root l k)
+/-- Whatever the tree, the filters and the fresh-producer/inline decisions: the items the producer
+programs send to the two channels are exactly the selected nodes, each once (equality of
+multisets). -/
+theorem producers_enqueue_once (c : WalkCfg) (oracle : Path → Bool) (root : Path) (l : Bool) (k : Kids) :
+    (sendsL (rootProg c oracle root l k)).Perm (selected c root l k) :=
+  rootProg_sends_perm c oracle root l k
 
 /-- Descends only into accepted directories: the directories handed to `ReadDir` are the root and
 the accepted directories below listable listed ones, each once, with the listing's outcome. -/
-theorem producers_list_accepted_once (c : WalkCfg) (oracle : Path → Bool) (root : Path) (l : Bool) (k : Kids)
-    (acts : List PAct) (h : Interleave (producerSeqs c oracle root l k) acts) :
-    (lists acts).Perm (listed c root l k) :=
-  (lists_perm (interleave_perm h)).trans (walkRoot_lists_perm c oracle root l k)
+theorem producers_list_accepted_once (c : WalkCfg) (oracle : Path → Bool) (root : Path) (l : Bool) (k : Kids) :
+    (listsL (rootProg c oracle root l k)).Perm (listed c root l k) :=
+  rootProg_lists_perm c oracle root l k
 
 /-- a tree: `./a` (file), `./d/` accepted with `./d/x`, `./e/` rejected with `./e/y` -/
 def exTree : Kids :=
@@ -60,81 +63,128 @@ def exTree : Kids :=
 def exCfg : WalkCfg :=
   { fileFilter := none, dirFilter := some (fun p => p != "./e"), onFile := true, onDir := true }
 
-example : Interleave (producerSeqs exCfg (fun _ => true) "./" true exTree)
-    (producerSeqs exCfg (fun _ => true) "./" true exTree).flatten := interleave_flatten _
 example : selected exCfg "./" true exTree = [(false, "./a"), (true, "./d"), (false, "./d/x")] := by decide
-example : (producerSeqs exCfg (fun _ => true) "./" true exTree).length = 2 := by decide
+example : sendsL (rootProg exCfg (fun _ => true) "./" true exTree) = [(false, "./a"), (true, "./d"), (false, "./d/x")] := by
+  decide
 example : listed exCfg "./" true exTree = [("./", true), ("./d", true)] := by decide
 
 /-! ### 2. The invariant of the repaired protocol -/
 
 /-- `Inv` (see `Goat/Proofs/LoopInv.lean`): the closer's position determines the announcement and
-leaves `waiting` only when the producers are done; a consumer that read "closed" really saw the
-announcement, and after it also saw `dirChan` empty, `dirChan` stays empty; a consumer that left its
-loop did so after a kill or with the announcement made and both queues empty; the wait-group counter
-counts the consumers that have not signed off; items are conserved
-(`pending ⊎ queues ⊎ in callbacks ⊎ done ⊎ never-sent-after-kill = all sends`); failures are
-conserved; queues respect their capacities.  It holds after every schedule, for every number of
-consumers and all capacities. -/
-theorem loop_inv (P : Params) (hP : P.fixedOrder = true) (acts : List PAct) (n : Nat) (sched : List Label) :
-    Inv P acts n ((sys P acts n).run sched) :=
-  inv_reachable hP acts n _ (run_reachable _ sched)
+leaves `waiting` only when the producer pool is empty; both pool counters count the goroutines that
+have not signed off; a consumer that read "closed" really saw the announcement, and after it also
+saw `dirChan` empty, `dirChan` stays empty; a consumer that left its loop did so after a kill or
+with the announcement made and both queues empty; items are conserved (`to be sent ⊎ queues ⊎ in
+callbacks ⊎ done ⊎ skipped-after-kill = all sends`); failing listings and failing callbacks are
+conserved (`executed`, `reported or about to be reported`); an entry in the error list means the
+context is cancelled; queues respect their capacities.  It holds after every schedule — kills,
+error events and the deadline at any position — for every number of consumers and all capacities. -/
+theorem loop_inv (P : Params) (hP : P.fixedOrder = true) (prog : List PAct) (n : Nat) (sched : List Label) :
+    Inv P prog n ((sys P prog n).run sched) :=
+  inv_reachable hP prog n _ (run_reachable _ sched)
 
 example : newParams.fixedOrder = true := rfl
-example : Inv newParams oneFile 3 ((sys newParams oneFile 3).run [.prod, .cons 2, .prod, .cons 0, .closer]) :=
+example : Inv newParams oneFile 3 ((sys newParams oneFile 3).run [.prod 0, .cons 2, .kill, .prod 0, .cons 0, .closer]) :=
   loop_inv newParams rfl oneFile 3 _
 
 /-! ### 3. Exactly once -/
 
-/-- When `Wait` can return and the error list is empty, the callbacks that have returned are exactly
-the selected nodes, each once — for every tree, filters, producer interleaving, number `n ≥ 1` of
-consumers, capacities and schedule. -/
+/-- When `Wait` can return and `Errors()` is empty, the callbacks that have returned are exactly the
+selected nodes, each once — for every tree, filters, fresh-producer/inline decisions, number
+`n ≥ 1` of consumers, capacities and schedule. -/
 theorem exactly_once (c : WalkCfg) (oracle : Path → Bool) (root : Path) (l : Bool) (k : Kids)
-    (acts : List PAct) (hacts : Interleave (producerSeqs c oracle root l k) acts)
     (P : Params) (hP : P.fixedOrder = true) (n : Nat) (hn : 0 < n) (sched : List Label) :
-    let s := (sys P acts n).run sched
-    waitEnabled s → s.errors = [] → s.done.Perm (selected c root l k) := by
+    let s := (sys P (rootProg c oracle root l k) n).run sched
+    waitEnabled s → errorsOf s = [] → s.done.Perm (selected c root l k) := by
   intro s hw he
-  exact (done_perm_of_wait (loop_inv P hP acts n sched) hn hw he).trans
-    (producers_enqueue_once c oracle root l k acts hacts)
+  exact (done_perm_of_wait (loop_inv P hP _ n sched) hn hw he).trans
+    (producers_enqueue_once c oracle root l k)
 
 /-- Nothing is ever repeated, errors or not: at every moment the finished and the running callbacks
 on a node together do not exceed the node's multiplicity among the selected nodes. -/
 theorem never_repeated (c : WalkCfg) (oracle : Path → Bool) (root : Path) (l : Bool) (k : Kids)
-    (acts : List PAct) (hacts : Interleave (producerSeqs c oracle root l k) acts)
     (P : Params) (hP : P.fixedOrder = true) (n : Nat) (sched : List Label) (x : Item) :
-    let s := (sys P acts n).run sched
+    let s := (sys P (rootProg c oracle root l k) n).run sched
     s.done.count x + (inflight s.cons).count x ≤ (selected c root l k).count x := by
   intro s
-  have h1 : s.done.count x + (inflight s.cons).count x ≤ (sends acts).count x :=
-    done_count_le (loop_inv P hP acts n sched) x
-  have h2 := (producers_enqueue_once c oracle root l k acts hacts).count_eq x
+  have h1 : s.done.count x + (inflight s.cons).count x ≤ (sendsL (rootProg c oracle root l k)).count x :=
+    done_count_le (loop_inv P hP _ n sched) x
+  have h2 := (producers_enqueue_once c oracle root l k).count_eq x
   omega
+
+/-- With or without kills, error events and timeouts: when the selected nodes are pairwise distinct
+(a tree without duplicate names), the callbacks that have returned and the ones that are running are
+pairwise distinct — no node is delivered twice. -/
+theorem never_repeated_always (c : WalkCfg) (oracle : Path → Bool) (root : Path) (l : Bool) (k : Kids)
+    (P : Params) (hP : P.fixedOrder = true) (n : Nat) (sched : List Label)
+    (hnd : (selected c root l k).Nodup) :
+    let s := (sys P (rootProg c oracle root l k) n).run sched
+    (s.done ++ inflight s.cons).Nodup :=
+  nodup_done_inflight (loop_inv P hP _ n sched)
+    ((producers_enqueue_once c oracle root l k).nodup_iff.mpr hnd)
 
 /-- a complete run on one file with one consumer: `Wait` can return, no error, the callback ran -/
 def exRun : St :=
-  (sys newParams oneFile 1).run ([.prod, .prod, .closer, .closer] ++ List.replicate 13 (.cons 0))
-example : waitEnabled exRun ∧ exRun.errors = [] ∧ exRun.done = [(false, "./a")] := by decide
+  (sys newParams oneFile 1).run ([.prod 0, .prod 0, .prod 0, .prod 0, .closer, .closer] ++ List.replicate 13 (.cons 0))
+example : waitEnabled exRun ∧ errorsOf exRun = [] ∧ exRun.done = [(false, "./a")] := by decide
 
 example : (selected exCfg "./" true exTree).count (false, "./a") = 1 := by decide
+example : (selected exCfg "./" true exTree).Nodup := by decide
 
 /-! ### 4. `Wait` returns after the last callback -/
 
 /-- When `Wait` can return no callback is running, and whatever happens afterwards no callback
 starts or finishes any more. -/
-theorem wait_after_last_callback (P : Params) (hP : P.fixedOrder = true) (acts : List PAct) (n : Nat)
+theorem wait_after_last_callback (P : Params) (hP : P.fixedOrder = true) (prog : List PAct) (n : Nat)
     (sched : List Label) :
-    let s := (sys P acts n).run sched
+    let s := (sys P prog n).run sched
     waitEnabled s → inflight s.cons = [] ∧
-      ∀ more : List Label, inflight ((sys P acts n).runFrom s more).cons = [] ∧
-        ((sys P acts n).runFrom s more).done = s.done := by
+      ∀ more : List Label, inflight ((sys P prog n).runFrom s more).cons = [] ∧
+        ((sys P prog n).runFrom s more).done = s.done := by
   intro s hw
-  have hall := allExited_of_wait (loop_inv P hP acts n sched) hw
+  have hall := allExited_of_wait (loop_inv P hP prog n sched) hw
   refine ⟨inflight_allExited _ hall, fun more => ?_⟩
-  have := allExited_runFrom (P := P) (acts := acts) (n := n) hall more
+  have := allExited_runFrom (P := P) (prog := prog) (n := n) hall more
   exact ⟨inflight_allExited _ this.1, this.2⟩
 
+/-- Also after a kill, an error event or the deadline: `Wait` can return exactly when every consumer
+goroutine has signed off; then no consumer is inside a callback and none is about to report a
+callback's error (a callback that was running when the lifecycle was killed has returned and its
+result has been handled). -/
+theorem wait_after_last_callback_always (P : Params) (hP : P.fixedOrder = true) (prog : List PAct) (n : Nat)
+    (sched : List Label) :
+    let s := (sys P prog n).run sched
+    (waitEnabled s ↔ AllExited s) ∧
+      (waitEnabled s → inflight s.cons = [] ∧ reporting s.cons = []) := by
+  intro s
+  have hI := loop_inv P hP prog n sched
+  refine ⟨⟨allExited_of_wait hI, wait_of_allExited hI⟩, fun hw => ?_⟩
+  have hall := allExited_of_wait hI hw
+  exact ⟨inflight_allExited _ hall, reporting_allExited _ hall⟩
+
+/-- After `Wait` has returned, whatever the schedule and the environment do, no callback starts, none
+finishes, and `Wait` stays enabled. -/
+theorem no_callback_after_wait (P : Params) (hP : P.fixedOrder = true) (prog : List PAct) (n : Nat)
+    (sched more : List Label) :
+    let s := (sys P prog n).run sched
+    let t := (sys P prog n).runFrom s more
+    waitEnabled s → inflight t.cons = [] ∧ t.done = s.done ∧ waitEnabled t := by
+  intro s t hw
+  have hall := allExited_of_wait (loop_inv P hP prog n sched) hw
+  have h := allExited_runFrom (P := P) (prog := prog) (n := n) hall more
+  have hIt : Inv P prog n t := inv_reachable hP prog n _ (runFrom_reachable _ (run_reachable _ sched) more)
+  exact ⟨inflight_allExited _ h.1, h.2, wait_of_allExited hIt h.1⟩
+
 example : waitEnabled exRun ∧ inflight exRun.cons = [] := by decide
+
+/-- a run in which the lifecycle is killed from outside while the callback is running: `Wait` is not
+enabled until the callback has returned and the consumer has signed off -/
+def exKillRun (k : Nat) : St :=
+  (sys newParams oneFile 1).run ([.prod 0, .prod 0] ++ List.replicate 7 (.cons 0) ++ [.kill] ++ List.replicate k (.cons 0))
+example : inflight (exKillRun 0).cons = [(false, "./a")] ∧ (exKillRun 0).killed = true ∧ ¬ waitEnabled (exKillRun 0) := by
+  decide
+example : waitEnabled (exKillRun 3) ∧ (exKillRun 3).done = [(false, "./a")] ∧ errorsOf (exKillRun 3) = [.canceled] := by
+  decide
 
 /-! ### 5. Bounded concurrency -/
 
@@ -142,46 +192,57 @@ example : waitEnabled exRun ∧ inflight exRun.cons = [] := by decide
 is what `Loop.Run` computes from `LoopData.Consumers` with `Pool.Add`'s arithmetic: at most
 `workers.MaxJob`, at most the configured count when one is configured, equal to it when it lies
 between 1 and `workers.MaxJob`. -/
-theorem bounded_callbacks (P : Params) (hP : P.fixedOrder = true) (acts : List PAct)
+theorem bounded_callbacks (P : Params) (hP : P.fixedOrder = true) (prog : List PAct)
     (configured maxJob : Nat) (sched : List Label) :
     let n := consumerCount configured maxJob
-    let s := (sys P acts n).run sched
+    let s := (sys P prog n).run sched
     (inflight s.cons).length ≤ n ∧ n ≤ maxJob ∧ (configured ≠ 0 → n ≤ configured) ∧
       (1 ≤ configured → configured ≤ maxJob → n = configured) ∧ (0 < maxJob → 0 < n) := by
   intro n s
-  refine ⟨inflight_length_le (loop_inv P hP acts n sched), consumerCount_le _ _, ?_,
+  refine ⟨inflight_length_le (loop_inv P hP prog n sched), consumerCount_le _ _, ?_,
     consumerCount_eq _ _, consumerCount_pos _ _⟩
   intro h
   show consumerCount configured maxJob ≤ configured
   simp only [consumerCount, poolAdd]
   split <;> omega
 
+/-- With or without kills: the callbacks that are running plus the consumers that have left their
+loop never exceed the number of consumer goroutines (a consumer runs one callback at a time, and a
+consumer that has left never runs one again). -/
+theorem bounded_callbacks_always (P : Params) (hP : P.fixedOrder = true) (prog : List PAct) (n : Nat)
+    (sched : List Label) :
+    let s := (sys P prog n).run sched
+    (inflight s.cons).length + s.cons.countP (fun pc => pc == .exiting || pc == .exited) ≤ n :=
+  inflight_exited_le (loop_inv P hP prog n sched)
+
 example : consumerCount 3 16 = 3 ∧ consumerCount 0 16 = 16 ∧ consumerCount 40 16 = 16 := by decide
 
 /-! ### 6. Errors are recorded -/
 
 /-- (a) Every callback that returned an error is in the error list or its consumer's very next
-action is to put it there; (b) every failing listing is in the error list, or has not been executed
-yet, or was never executed because the lifecycle had already been killed; (c) when `Wait` can return
-every failed callback is in the error list; (d) an empty error list means nothing was killed and
-no producer action was skipped. -/
-theorem errors_recorded (P : Params) (hP : P.fixedOrder = true) (acts : List PAct) (n : Nat)
+action is to put it there; (b) every failing listing has been executed, or has not been executed
+yet, or was skipped because the producer returned early, and every executed one is in the error list
+or its producer's very next action is to put it there; (c) when `Wait` can return every failed
+callback is in the error list; (d) an empty `Errors()` means nothing was killed and no producer
+action was skipped. -/
+theorem errors_recorded (P : Params) (hP : P.fixedOrder = true) (prog : List PAct) (n : Nat)
     (sched : List Label) :
-    let s := (sys P acts n).run sched
+    let s := (sys P prog n).run sched
     (∀ d x, s.errors.count (.cb d x) + (reporting s.cons).count (.cb d x)
         = if P.failCb d x then s.done.count (d, x) else 0)
-    ∧ (∀ p, s.errors.count (.listing p) + (lists s.pending).count (p, false)
-        + (lists s.dropped).count (p, false) = (lists acts).count (p, false))
+    ∧ (∀ p, s.lfailed.count p + lsum (lpendC p) s.prods + (listsL s.dropped).count (p, false)
+          = (listsL prog).count (p, false)
+        ∧ s.errors.count (.listing p) + (reportingP s.prods).count p = s.lfailed.count p)
     ∧ (waitEnabled s → ∀ d x, (d, x) ∈ s.done → P.failCb d x = true → Err.cb d x ∈ s.errors)
-    ∧ (s.errors = [] → s.killed = false ∧ s.dropped = []) := by
+    ∧ (errorsOf s = [] → s.killed = false ∧ s.dropped = []) := by
   intro s
-  have hI := loop_inv P hP acts n sched
+  have hI := loop_inv P hP prog n sched
   have ha : ∀ d x, s.errors.count (.cb d x) + (reporting s.cons).count (.cb d x)
       = if P.failCb d x then s.done.count (d, x) else 0 := by
     intro d x
     rw [count_reporting (d, x)]
     exact hI.cbfail (d, x)
-  refine ⟨ha, hI.lfail, ?_, ?_⟩
+  refine ⟨ha, fun p => ⟨hI.lfail p, by rw [count_reportingP]; exact hI.lrep p⟩, ?_, ?_⟩
   · intro hw d x hx hf
     have h := ha d x
     rw [reporting_allExited _ (allExited_of_wait hI hw), hf] at h
@@ -190,77 +251,218 @@ theorem errors_recorded (P : Params) (hP : P.fixedOrder = true) (acts : List PAc
     simp at h
     omega
   · intro he
-    have hk : s.killed = false := by
-      cases hs : s.killed
-      · rfl
-      · exact absurd he (hI.killed.mp hs)
+    have hk := (errorsOf_nil.mp he).2
     exact ⟨hk, hI.dropped hk⟩
+
+/-- Whatever killed the lifecycle and whenever: when `Wait` can return, (a) the error of every
+callback that returned one is in `Errors()` — including a callback that was still running when
+something else killed the lifecycle; (b) every `ReadDir` that returned an error — in `Producer.Loop`
+or in the inline descent of `processDir` — is in `Errors()`, or the `lifecycle.Error(err)` call is
+the very next action of its producer, which is then still running although the lifecycle is killed
+(so `Errors()` is not empty); (c) once every producer has signed off every failed listing is in
+`Errors()`. -/
+theorem every_error_recorded_always (P : Params) (hP : P.fixedOrder = true) (prog : List PAct) (n : Nat)
+    (hn : 0 < n) (sched : List Label) :
+    let s := (sys P prog n).run sched
+    waitEnabled s →
+      (∀ d x, (d, x) ∈ s.done → P.failCb d x = true → Err.cb d x ∈ errorsOf s)
+      ∧ (∀ p, p ∈ s.lfailed → Err.listing p ∈ errorsOf s ∨
+          (p ∈ reportingP s.prods ∧ s.killed = true ∧ s.ppool ≠ 0 ∧ errorsOf s ≠ []))
+      ∧ (s.ppool = 0 → ∀ p, p ∈ s.lfailed → Err.listing p ∈ errorsOf s) := by
+  intro s hw
+  have hI := loop_inv P hP prog n sched
+  have hrec := (errors_recorded P hP prog n sched).2.2.1 hw
+  have hl : ∀ p, p ∈ s.lfailed → Err.listing p ∈ errorsOf s ∨ (p ∈ reportingP s.prods ∧ s.ppool ≠ 0) := by
+    intro p hp
+    rcases listing_recorded_or_reporting hI p hp with h | h
+    · exact Or.inl (List.mem_append_left _ h)
+    · exact Or.inr ⟨h, ppool_of_reporting hI p h⟩
+  refine ⟨fun d x hx hf => List.mem_append_left _ (hrec d x hx hf), ?_, ?_⟩
+  · intro p hp
+    rcases hl p hp with h | ⟨h1, h2⟩
+    · exact Or.inl h
+    · -- a producer is still running although every consumer has left: only after a kill
+      have hk : s.killed = true := by
+        cases hk : s.killed
+        · exfalso
+          obtain ⟨pc, hpc⟩ := exists_cons hI hn
+          exact h2 (drained_of_exit hI hk hpc (Or.inr (allExited_of_wait hI hw pc hpc))).1
+        · rfl
+      exact Or.inr ⟨h1, hk, h2, fun he => by rw [(errorsOf_nil.mp he).2] at hk; cases hk⟩
+  · intro h0 p hp
+    rcases hl p hp with h | ⟨_, h2⟩
+    · exact h
+    · exact absurd h0 h2
+
+/-- If the walk ended early — `Wait` can return although some selected node was not delivered, or
+delivered nodes and selected nodes differ in any way — then `Errors()` is not empty: nothing is
+skipped silently, whether the cause is a callback error, a listing error, a scope Kill or Error
+event or the deadline.  Also: a killed lifecycle always shows in `Errors()`. -/
+theorem killed_implies_error_nonempty (c : WalkCfg) (oracle : Path → Bool) (root : Path) (l : Bool) (k : Kids)
+    (P : Params) (hP : P.fixedOrder = true) (n : Nat) (hn : 0 < n) (sched : List Label) :
+    let s := (sys P (rootProg c oracle root l k) n).run sched
+    (waitEnabled s → ¬ s.done.Perm (selected c root l k) → errorsOf s ≠ [])
+    ∧ (s.killed = true → errorsOf s ≠ [])
+    ∧ (s.dropped ≠ [] → errorsOf s ≠ []) := by
+  intro s
+  have hI := loop_inv P hP (rootProg c oracle root l k) n sched
+  refine ⟨fun hw hnp he => hnp (exactly_once c oracle root l k P hP n hn sched hw he), ?_, ?_⟩
+  · intro hk he
+    rw [(errorsOf_nil.mp he).2] at hk; cases hk
+  · intro hd he
+    exact hd (hI.dropped (errorsOf_nil.mp he).2)
 
 /-- a failing callback: the run ends with the failure in the error list -/
 def exFailRun : St :=
   (sys { newParams with failCb := fun _ p => p == "./a" } oneFile 1).run
-    ([.prod, .prod] ++ List.replicate 12 (.cons 0))
-example : waitEnabled exFailRun ∧ exFailRun.errors = [.cb false "./a"] ∧ exFailRun.killed = true := by decide
+    ([.prod 0, .prod 0] ++ List.replicate 12 (.cons 0))
+example : waitEnabled exFailRun ∧ errorsOf exFailRun = [.cb false "./a", .canceled] ∧ exFailRun.killed = true := by
+  decide
+
+/-- the callback on `./a` is running when the deadline passes; it returns an error afterwards: the
+error is recorded -/
+def exLateFail : St :=
+  (sys { newParams with failCb := fun _ p => p == "./a" } oneFile 1).run
+    ([.prod 0, .prod 0] ++ List.replicate 7 (.cons 0) ++ [.timeout] ++ List.replicate 5 (.cons 0))
+example : waitEnabled exLateFail ∧ errorsOf exLateFail = [.cb false "./a", .deadline] := by decide
+
+/-- a killed walk that ended early: the file was never delivered, `Errors()` says why -/
+def exEarly : St := (sys newParams oneFile 1).run ([.errEvent] ++ List.replicate 3 (.cons 0) ++ List.replicate 4 (.prod 0))
+example : waitEnabled exEarly ∧ exEarly.done = [] ∧ errorsOf exEarly = [.canceled] := by decide
+
+/-- a failing listing in the inline descent (`x` cannot be listed): recorded -/
+def exListFail : St :=
+  (sys newParams (rootProg plainCfg (fun _ => false) "./" true (.cons "x" (.dir false .nil) .nil)) 1).run
+    (List.replicate 6 (.prod 0))
+example : exListFail.lfailed = ["./x"] ∧ errorsOf exListFail = [.listing "./x", .canceled] := by decide
 
 /-! ### 7. Progress, and no send on a closed channel -/
 
-/-- Without a kill and with at least one consumer, some action is enabled until every consumer has
-signed off and the closer has closed both channels (no deadlock; in particular a producer blocked
-on a full channel is never left behind: as long as anything is left to send, no consumer has left
-its loop). -/
-theorem no_stuck_without_kill (P : Params) (hP : P.fixedOrder = true) (acts : List PAct) (n : Nat)
+/-- Without a kill and with at least one consumer, some goroutine of the loop can move until every
+consumer has signed off and the closer has closed both channels (no deadlock; in particular a
+producer blocked on a full channel is never left behind: as long as a producer has not signed off,
+no consumer has left its loop). -/
+theorem no_stuck_without_kill (P : Params) (hP : P.fixedOrder = true) (prog : List PAct) (n : Nat)
     (hn : 0 < n) (sched : List Label) :
-    let s := (sys P acts n).run sched
+    let s := (sys P prog n).run sched
     s.killed = false →
-      (¬ (AllExited s ∧ s.closer = .fin) → ∃ l t, (sys P acts n).step s l = some t)
-      ∧ (s.pending ≠ [] → ∀ pc ∈ s.cons, pc ≠ .exiting ∧ pc ≠ .exited) := by
+      (¬ (AllExited s ∧ s.closer = .fin) → ∃ l t, l.isProg = true ∧ (sys P prog n).step s l = some t)
+      ∧ (s.ppool ≠ 0 → ∀ pc ∈ s.cons, pc ≠ .exiting ∧ pc ≠ .exited) := by
   intro s hk
-  have hI := loop_inv P hP acts n sched
+  have hI := loop_inv P hP prog n sched
   exact ⟨fun hnf => progress hI hn hk hnf, fun hp => consumer_remains hI hk hp⟩
 
 /-- a state in the middle of a run: not killed, the consumer still in its loop, the closer not done -/
 example :
-    let s := (sys newParams oneFile 1).run [.prod, .cons 0, .cons 0]
-    s.killed = false ∧ ¬ (AllExited s ∧ s.closer = .fin) ∧ s.pending ≠ [] := by
+    let s := (sys newParams oneFile 1).run [.prod 0, .cons 0, .cons 0]
+    s.killed = false ∧ ¬ (AllExited s ∧ s.closer = .fin) ∧ s.ppool ≠ 0 := by
   refine ⟨by decide, ?_, by decide⟩
   intro h
   have : (.fin : CPC) = .waiting := h.2.symm.trans (by decide)
   cases this
 
-/-- The closer closes the channels only when nothing is left to send. -/
-theorem no_send_on_closed_channel (P : Params) (hP : P.fixedOrder = true) (acts : List PAct) (n : Nat)
+/-- The closer closes the channels only when every producer has signed off. -/
+theorem no_send_on_closed_channel (P : Params) (hP : P.fixedOrder = true) (prog : List PAct) (n : Nat)
     (sched : List Label) :
-    let s := (sys P acts n).run sched
-    (s.dClosed = true ∨ s.fClosed = true) → s.pending = [] := by
+    let s := (sys P prog n).run sched
+    (s.dClosed = true ∨ s.fClosed = true) → s.ppool = 0 ∧ ∀ pr ∈ s.prods, pr = Prod.gone := by
   intro s h
-  have hI := loop_inv P hP acts n sched
-  exact closed_pending hI.closer (chClosed_closed hI.closer h)
+  have hI := loop_inv P hP prog n sched
+  have h0 := closed_ppool hI.closer (chClosed_closed hI.closer h)
+  exact ⟨h0, gone_of_ppool hI h0⟩
 
 /-- a run in which both channels have been closed -/
 example :
-    let s := (sys newParams oneFile 1).run [.prod, .prod, .closer, .closer, .closer, .closer]
-    s.dClosed = true ∧ s.fClosed = true ∧ s.pending = [] := by decide
+    let s := (sys newParams oneFile 1).run [.prod 0, .prod 0, .prod 0, .prod 0, .closer, .closer, .closer, .closer]
+    s.dClosed = true ∧ s.fClosed = true ∧ s.ppool = 0 := by decide
 
-/-! ### 8. The order of the pinned tree loses the last item -/
+/-! ### 8. After a kill -/
+
+/-- After the lifecycle has been killed (callback or listing error, scope Kill / Error event,
+deadline), for every continuation of the schedule:
+(a) the goroutines of the loop execute at most `measure s` more actions — there is no infinite run;
+(b) a consumer leaves its loop and signs off within 13 of its own actions (a callback that is
+    running returns, its result is handled, at most one more callback is started by a consumer
+    that was between its queue test and its receive); when every consumer has had them, `Wait` can
+    return;
+(c) a state in which no goroutine of the loop can move is of this shape: every consumer has signed
+    off; every producer has signed off or is blocked in a send on a full channel; and if every
+    producer has signed off the closer has closed both channels.  Hence the only way for a producer
+    (and the closer with it) not to finish is a full channel with no consumer left — which is
+    reachable, see `producer_stuck_after_kill_reachable`;
+(d) when the channel capacities cover everything the program sends (as many directory items as
+    `capD`, file items as `capF`: the walk selects at most 1000 of each in the code), no producer is
+    ever blocked and such a state is the regular end: all consumers, all producers and the closer
+    have finished. -/
+theorem terminates_after_kill (P : Params) (hP : P.fixedOrder = true) (prog : List PAct) (n : Nat)
+    (sched : List Label) :
+    let S := sys P prog n
+    let s := S.run sched
+    s.killed = true →
+      (∀ more, (S.firedFrom s more).countP (fun p => p.2.isProg) ≤ measure s)
+      ∧ (∀ more, (∀ i, i < n → 13 ≤ more.count (.cons i)) → waitEnabled (S.runFrom s more))
+      ∧ ((∀ l, l.isProg = true → S.step s l = none) →
+          AllExited s ∧ (∀ (j : Nat) (pr : Prod), s.prods[j]? = some pr → pr = .gone ∨ BlockedSend P s pr)
+            ∧ (s.ppool = 0 → s.closer = .fin))
+      ∧ ((sendsL prog).countP (fun x => x.1) ≤ P.capD → (sendsL prog).countP (fun x => !x.1) ≤ P.capF →
+          (∀ l, l.isProg = true → S.step s l = none) →
+          AllExited s ∧ (∀ pr ∈ s.prods, pr = Prod.gone) ∧ s.closer = .fin) := by
+  intro S s hk
+  have hI := loop_inv P hP prog n sched
+  exact ⟨fun more => fired_prog_bound hP s hk more,
+    fun more hm => wait_after_kill hP s (run_reachable _ sched) hk more hm,
+    fun hst => stuck_shape hI hst,
+    fun hD hF hst => terminal_of_capacity hI hD hF hst⟩
+
+/-- a killed run: the measure bounds what is left; 13 turns of the consumer make `Wait` return -/
+example : (exKillRun 0).killed = true ∧ measure (exKillRun 0) = 10 := by decide
+example : waitEnabled ((sys newParams oneFile 1).runFrom (exKillRun 0) (List.replicate 13 (.cons 0))) := by decide
+example : (sendsL oneFile).countP (fun x => x.1) ≤ newParams.capD ∧ (sendsL oneFile).countP (fun x => !x.1) ≤ newParams.capF := by
+  decide
+
+/-- FINDING (goroutine leak after a kill).  With channel capacity 1, one consumer and three files of
+which the first one's callback fails, a schedule exists after which `Wait` can return (the consumer
+saw the kill at the top of its loop and left), `Errors()` holds the callback's error, and the
+producer is blocked in `fileChan <- "./c"` on a full channel; whatever happens afterwards it stays
+blocked, the producer pool never empties and the completion goroutine never leaves
+`producerPool.Wait()`: two goroutines and the queued items are never released.  (`Wait` itself is
+not affected.)  In the code the capacity is `ChanSize = 1000`: the same needs more than 1001
+selected files or directories. -/
+theorem producer_stuck_after_kill_reachable :
+    ∃ sched : List Label,
+      let S := sys tinyParams threeFiles 1
+      let s := S.run sched
+      waitEnabled s ∧ s.killed = true ∧ errorsOf s = [.cb false "./a", .canceled] ∧
+      ∀ more : List Label,
+        let t := S.runFrom s more
+        (∃ pr, t.prods[0]? = some pr ∧ BlockedSend tinyParams t pr) ∧ t.ppool ≠ 0 ∧ t.closer = .waiting := by
+  refine ⟨stuckSchedule, ?_⟩
+  have h := stuck_state
+  exact ⟨h.1, h.2.2.1, h.2.2.2.2.2.1, fun more => stuck_forever more⟩
+
+/-- `threeFiles` is a producer program: the walk of the tree `./a ./b ./c` with no filters -/
+example : rootProg plainCfg (fun _ => false) "./" true
+    (.cons "a" .file (.cons "b" .file (.cons "c" .file .nil))) = threeFiles := threeFiles_eq
+
+/-! ### 9. The order of the pinned tree loses the last item -/
 
 /-- With the consumer of `pinned-base` (emptiness test first, step read second), one consumer (what
 `fshelper.Copy` configures) and a tree with one file, a schedule exists after which `Wait` can
-return with an empty error list although the file is still in the queue and its callback never ran:
+return with an empty `Errors()` although the file is still in the queue and its callback never ran:
 the statement of `exactly_once` is false for that order. -/
 theorem lost_item_reachable :
     ∃ sched : List Label,
       let s := (sys oldParams oneFile 1).run sched
-      waitEnabled s ∧ s.errors = [] ∧ s.qf = ["./a"] ∧ ¬ s.done.Perm (sends oneFile) := by
+      waitEnabled s ∧ errorsOf s = [] ∧ s.qf = ["./a"] ∧ ¬ s.done.Perm (sendsL oneFile) := by
   refine ⟨lostSchedule, ?_⟩
   have h := lost_item_state
   refine ⟨h.1, h.2.2.2.2.1, h.2.2.1, ?_⟩
   rw [h.2.2.2.1]
   intro hp
   have := hp.length_eq
-  simp [oneFile, sends] at this
+  simp [oneFile] at this
 
-/-- `oneFile` is a producer run: the walk of the tree `./a` with no filters -/
-example : Interleave (producerSeqs { fileFilter := none, dirFilter := none, onFile := true, onDir := true }
-    (fun _ => false) "./" true (.cons "a" .file .nil)) oneFile := interleave_flatten _
+/-- `oneFile` is a producer program: the walk of the tree `./a` with no filters -/
+example : rootProg plainCfg (fun _ => false) "./" true (.cons "a" .file .nil) = oneFile := oneFile_eq
 
 end Goat.C08
